@@ -168,6 +168,8 @@ func (E *Engine) markWritten(st *State, comp string) {
 
 func (E *Engine) mapUpdate(st *State, x *ssa.MapUpdate) {
 	m, k, v := E.val(st, x.Map), E.val(st, x.Key), E.val(st, x.Value)
+	E.escapeVal(st, k)
+	E.escapeVal(st, v)
 	E.oblige(st, "nil-map", E.site(x), not(eq(m.S, "0")), "assignment to entry in non-nil map", E.pos(x), nil)
 	st.assume(not(eq(m.S, "0")))
 	E.lockCheckMap(st, x, x.Map, true)
@@ -635,6 +637,10 @@ func (E *Engine) doGo(st *State, x *ssa.Go) []*State {
 	for _, a := range cc.Args {
 		args = append(args, E.val(st, a))
 	}
+	for _, a := range args {
+		E.escapeVal(st, a)
+	}
+	E.escapeVal(st, fnv)
 	if fnv.Fn == nil {
 		E.note("go on unknown function value")
 		E.havocAll(st, "go statement with unknown function")
